@@ -108,10 +108,22 @@ def _random_cons(rng, fmt, kind, tags):
             v = rng.randrange(n)
             base.insert(rng.randrange(len(base) + 1), (v, v))
         else:
-            # close a cycle: add an edge from a descendant back to an ancestor
-            p, c = rng.choice(base)
-            base.insert(rng.randrange(len(base) + 1), (c, p))
-            if rng.random() < 0.5 and n >= 3:   # or a longer one
+            # close a cycle of any length: add an edge from a descendant back to an ancestor
+            ch = {i: [c for p, c in base if p == i] for i in range(n)}
+            pairs = []
+            for x in range(n):
+                seen, todo, dist = {}, [(x, 0)], None
+                while todo:
+                    y, dd = todo.pop()
+                    for z in ch[y]:
+                        if z not in seen or seen[z] < dd + 1:
+                            seen[z] = dd + 1
+                            todo.append((z, dd + 1))
+                pairs += [(x, y, dd) for y, dd in seen.items()]
+            long_pairs = [pr for pr in pairs if pr[2] >= 2]
+            x, y, _dd = rng.choice(long_pairs if long_pairs and rng.random() < 0.7 else pairs)
+            base.insert(rng.randrange(len(base) + 1), (y, x))
+            if rng.random() < 0.5:
                 rng.shuffle(base)
         edges = base
     else:
@@ -209,6 +221,11 @@ def gen(rng: random.Random, tier: str):
         for fmt in FORMATS:
             cases.append(mk_rt(n, edges, rng.randrange(n), fmt, _random_sel(rng, attrs), attrs, rng, names=names,
                                tags=("random", "attrs" if attrs else "noattrs")))
+    for _ in range(40 if tier == "quick" else 400):
+        n, edges = U.fan_dag(rng)
+        attrs = U.random_attrs(rng, n, rng.choice([0.0, 0.5]))
+        for fmt in FORMATS:
+            cases.append(mk_rt(n, edges, rng.randrange(n), fmt, _random_sel(rng, attrs), attrs, rng, tags=("fan",)))
     # constructors on their own: mostly valid + malformed stream
     nc = 400 if tier == "quick" else 4000
     for _ in range(nc):
